@@ -68,7 +68,7 @@ class C19(CfProp):
     budgets = {"quick": 600, "thorough": 6000}
     per_file = 100
     rule = ("random ADMGs with 2..5 nodes x one of: minimise a counterfactual variable (0..2 subscripts, reflexive ones and non-ancestors included), "
-            "its counterfactual ancestors, ancestral components of 1..3 roots given 0..2 conditioned variables, SIMPLIFY of a 1..4-conjunct event "
+            "its counterfactual ancestors, ancestral components of 1..6 roots given 0..2 conditioned variables (and of the sinks of zigzag graphs on 5..9 nodes, whose ancestral sets overlap along a path), SIMPLIFY of a 1..4-conjunct event "
             "(repeated variables, reflexive subscripts, both polarities), factorisation of a 1..2-variable query; non-trivial: the operation changes "
             "its input, merges sets, or returns None; distinct by input")
     explanation = ("each routine is compared with its Gallina model; minimise is checked to denote the same random variable for every noise value of a "
@@ -98,6 +98,25 @@ class C19(CfProp):
                 extra = [[order[i], order[j]] for i in range(k) for j in range(i + 2, k) if rng.random() < 0.15]
                 di = chain + extra; rng.shuffle(di)
                 g = {"nodes": list(range(k)), "dir": di, "bid": [[order[i], order[j]] for i in range(k) for j in range(i + 1, k) if rng.random() < 0.15]}
+            if rng.random() < 0.06:
+                # a zigzag v0 <- v1 -> v2 <- v3 -> ... (some links bidirected): the ancestral sets of the sinks overlap pairwise along a path, so that
+                # four or more sets have to be chained into one component whatever order they are met in (the names are a random permutation)
+                k = rng.randint(5, 9)
+                ids = list(range(k)); rng.shuffle(ids)
+                di, bi = [], []
+                for i in range(k - 1):
+                    a_, b_ = (ids[i + 1], ids[i]) if i % 2 == 0 else (ids[i], ids[i + 1])
+                    (bi if rng.random() < 0.15 else di).append([a_, b_])
+                rng.shuffle(di)
+                zg = {"nodes": sorted(ids), "dir": di, "bid": bi}
+                sinks = [ids[i] for i in range(0, k, 2)]
+                for _ in range(4):
+                    roots = [{"k": "V", "n": GE.ALPHA[v], "s": None} for v in sinks if rng.random() < 0.9]
+                    roots += [{"k": "V", "n": GE.ALPHA[v], "s": None} for v in ids if v not in sinks and rng.random() < 0.25]
+                    if len(roots) >= 2:
+                        rng.shuffle(roots)
+                        cases.append({"kind": "comp", "g": zg, "roots": roots, "conds": []})
+                continue
             kind = rng.choice(self.KINDS)
             c = {"kind": kind, "g": g}
             if kind in ("min", "anc"):
